@@ -395,6 +395,8 @@ impl TraceOp
     {
         match self.kind.as_str()
         {
+            // the language runtime re-opens closed standard descriptors on /dev/null: not a file system change
+            "open" if self.path == "/dev/null" => false,
             "open" =>
             {
                 let f = self.flags;
@@ -503,6 +505,9 @@ static RUNNING: Mutex<Vec<(i32, Instant)>> = Mutex::new(Vec::new());
 static TIMED_OUT: Mutex<Vec<i32>> = Mutex::new(Vec::new());
 static WATCHDOG: std::sync::Once = std::sync::Once::new();
 pub static PROCESS_RUNS: AtomicU64 = AtomicU64::new(0);
+/// Count every line of the subject's output as an operation (kind "out") in shim runs. Set once, by a
+/// property that wants signals placed between two lines of output.
+pub static COUNT_STDIO: std::sync::atomic::AtomicBool = std::sync::atomic::AtomicBool::new(false);
 
 fn start_watchdog()
 {
@@ -533,7 +538,26 @@ fn start_watchdog()
     });
 }
 
+/// Where the subject's standard output goes.
+#[derive(Clone, Copy, Debug, PartialEq, Eq)]
+pub enum StdoutMode
+{
+    /// captured (the default)
+    Piped,
+    /// /dev/full: every write fails with ENOSPC
+    DevFull,
+    /// a pipe whose reading end is already closed: every write fails with EPIPE
+    ClosedPipe,
+    /// descriptor 1 is closed at exec time
+    Closed,
+}
+
 pub fn run_breadlog(spec: &RunSpec) -> RunResult
+{
+    run_breadlog_with(spec, StdoutMode::Piped)
+}
+
+pub fn run_breadlog_with(spec: &RunSpec, stdout_mode: StdoutMode) -> RunResult
 {
     start_watchdog();
     PROCESS_RUNS.fetch_add(1, Ordering::Relaxed);
@@ -557,6 +581,10 @@ pub fn run_breadlog(spec: &RunSpec) -> RunResult
         cmd.env("BLSHIM_TRACE", &tp);
         let roots: Vec<String> = spec.roots.iter().map(|r| r.to_string_lossy().to_string()).collect();
         cmd.env("BLSHIM_ROOTS", roots.join(":"));
+        if COUNT_STDIO.load(Ordering::Relaxed)
+        {
+            cmd.env("BLSHIM_STDIO", "1");
+        }
         if let Some(p) = &spec.plan
         {
             cmd.env("BLSHIM_PLAN", p);
@@ -567,9 +595,36 @@ pub fn run_breadlog(spec: &RunSpec) -> RunResult
     {
         None
     };
-    cmd.stdin(Stdio::null()).stdout(Stdio::piped()).stderr(Stdio::piped());
+    cmd.stdin(Stdio::null()).stderr(Stdio::piped());
+    match stdout_mode
+    {
+        StdoutMode::Piped | StdoutMode::Closed => drop(cmd.stdout(Stdio::piped())),
+        StdoutMode::DevFull => drop(cmd.stdout(fs::OpenOptions::new().write(true).open("/dev/full").map(Stdio::from).unwrap_or_else(|_| Stdio::null()))),
+        StdoutMode::ClosedPipe =>
+        {
+            use std::os::unix::io::FromRawFd;
+            let mut fds = [0i32; 2];
+            let ok = unsafe { libc::pipe2(fds.as_mut_ptr(), libc::O_CLOEXEC) } == 0;
+            if ok
+            {
+                unsafe {
+                    libc::close(fds[0]);
+                    cmd.stdout(Stdio::from_raw_fd(fds[1]));
+                }
+            }
+            else
+            {
+                cmd.stdout(Stdio::null());
+            }
+        },
+    }
+    let close_stdout = stdout_mode == StdoutMode::Closed;
     unsafe {
-        cmd.pre_exec(|| {
+        cmd.pre_exec(move || {
+            if close_stdout
+            {
+                libc::close(1);
+            }
             // A check started from a background shell job inherits SIG_IGN for
             // SIGINT; the subject must see the default dispositions.
             libc::signal(libc::SIGINT, libc::SIG_DFL);
@@ -585,7 +640,7 @@ pub fn run_breadlog(spec: &RunSpec) -> RunResult
     let mut child = cmd.spawn().expect("spawn breadlog");
     let pid = child.id() as i32;
     RUNNING.lock().unwrap().push((pid, t0 + spec.timeout));
-    let mut so = child.stdout.take().unwrap();
+    let so = child.stdout.take();
     let mut se = child.stderr.take().unwrap();
     let th = std::thread::spawn(move || {
         let mut s = Vec::new();
@@ -593,7 +648,10 @@ pub fn run_breadlog(spec: &RunSpec) -> RunResult
         s
     });
     let mut out = Vec::new();
-    let _ = so.read_to_end(&mut out);
+    if let Some(mut so) = so
+    {
+        let _ = so.read_to_end(&mut out);
+    }
     let err = th.join().unwrap_or_default();
     let status = child.wait().expect("wait breadlog");
     let wall = t0.elapsed();
